@@ -79,10 +79,18 @@ func (m *TrieStore) Seek(rng storage.SeekRange, f func(k, v []byte) bool) {
 	}
 	path = path[len(prefixP):]
 
+	// bounded tells whether backwards traversal is limited by fromP (even if
+	// there's nothing left of it) or covers the whole subtree of the start node.
+	var bounded bool
 	if len(fromP) > 0 {
 		if len(path) <= len(fromP) && bytes.HasPrefix(fromP, path) {
 			fromP = fromP[len(path):]
+			bounded = true
 		} else if len(path) > len(fromP) && bytes.HasPrefix(path, fromP) {
+			if rng.Backwards {
+				// Everything under the start node extends Start, i.e. is greater than it.
+				return
+			}
 			fromP = []byte{}
 		} else {
 			cmp := bytes.Compare(path, fromP)
@@ -106,7 +114,11 @@ func (m *TrieStore) Seek(rng storage.SeekRange, f func(k, v []byte) bool) {
 		}
 		return false
 	}
-	_, err = b.traverse(start, path, fromP, process, false, rng.Backwards)
+	if rng.Backwards {
+		_, err = b.traverseBackwards(start, path, fromP, bounded, process, false)
+	} else {
+		_, err = b.traverse(start, path, fromP, process, false, false)
+	}
 	if err != nil && !errors.Is(err, errStop) {
 		panic(fmt.Errorf("failed to perform Seek operation on TrieStore: %w", err))
 	}
